@@ -248,6 +248,7 @@ def create_end_event(
     """
     end_event = Event(DUMMY_END_EVENT)
     loop_event_types = {event.event_type for event in loop.loop_events}
+    end_event_types = {event.event_type for event in loop.end_events}
     for end_event_node in loop.end_events:
         exit_event_nodes = get_outnodes_not_in_set(
             {end_event_node}, loop.loop_events, graph
@@ -260,9 +261,25 @@ def create_end_event(
                     if event_set.to_frozenset().issubset(loop_event_types):
                         end_event.update_in_event_sets(event_set.to_list())
         else:
-            # if no exit event nodes update end events in event sets to
-            # to be a single occurence of the end event
-            end_event.update_in_event_sets([end_event_node.event_type])
+            # if there are no exit event nodes the end events are joined in
+            # the same way as when the loop goes round again, so mirror the
+            # in event sets of the loop start events that are made up of end
+            # events only
+            mirrored = False
+            for start_event_node in loop.start_events:
+                for event_set in start_event_node.in_event_sets:
+                    if (
+                        end_event_node.event_type in event_set
+                        and event_set.to_frozenset().issubset(
+                            end_event_types
+                        )
+                    ):
+                        end_event.update_in_event_sets(event_set.to_list())
+                        mirrored = True
+            # otherwise update end events in event sets to be a single
+            # occurence of the end event
+            if not mirrored:
+                end_event.update_in_event_sets([end_event_node.event_type])
     return end_event
 
 
